@@ -25,27 +25,29 @@ CONSTANTS Dev,        \* enabled deviations
           Calls,      \* set of call kinds enabled in this configuration
           MaxLen      \* bound on the history length
 
-AllDev == {"OpCacheKeyedByName", "NodeCacheSurvives", "ApplyWritesVariations", "ToYamlWritesDefaults",
-           "CollectEdgesAppends", "UpdateVarNoCopy", "EdgeMapStale", "StateStash"}
+AllDev == {"OpCacheKeyedByName", "NodeCacheSurvives", "ApplyWritesVariations", "ToYamlWritesDefaults", "ClearSkipsWhenNoIR",
+           "CollectEdgesAppends", "UpdateVarNoCopy", "EdgeMapStale", "StateStash", "TemplateCacheByPath"}
 
 (* ------------------------------ the universe ------------------------------ *)
-OpIds == {"o1", "o2", "o3"}
+OpIds == {"o1", "o2", "o3", "o4"}
 Ops == [o1 |-> [name |-> "A", eqv |-> 1, k |-> 2, x0 |-> 10],
         o2 |-> [name |-> "A", eqv |-> 2, k |-> 3, x0 |-> 20],     \* same name as o1, other equation and defaults
-        o3 |-> [name |-> "B", eqv |-> 1, k |-> 5, x0 |-> 30]]     \* other name, same structure as o1
+        o3 |-> [name |-> "B", eqv |-> 1, k |-> 5, x0 |-> 30],     \* other name, same structure as o1
+        o4 |-> [name |-> "Y", eqv |-> 2, k |-> 4, x0 |-> 50]]     \* the operator of the circuit that lives in a YAML file
 Unset == 0
-NtIds == {"t1", "t2", "t3", "t4"}
-NtOp  == [t1 |-> "o1", t2 |-> "o2", t3 |-> "o3", t4 |-> "o1"]
+NtIds == {"t1", "t2", "t3", "t4", "t5"}
+NtOp  == [t1 |-> "o1", t2 |-> "o2", t3 |-> "o3", t4 |-> "o1", t5 |-> "o4"]
 NtVar0 == [t1 |-> [k |-> Unset, x0 |-> Unset], t2 |-> [k |-> Unset, x0 |-> Unset],
-           t3 |-> [k |-> 7, x0 |-> Unset],     t4 |-> [k |-> Unset, x0 |-> 15]]
-CircIds == {"c1", "c2", "c3"}
+           t3 |-> [k |-> 7, x0 |-> Unset],     t4 |-> [k |-> Unset, x0 |-> 15], t5 |-> [k |-> Unset, x0 |-> Unset]]
+CircIds == {"c1", "c2", "c3", "cy"}        \* cy: the template obtained from CircuitTemplate.from_yaml(path)
 (* c1: a and b share one NodeTemplate object, c shares only the operator; c2: an operator with the same *name* as
    c1's; c3: shares the template object t1 with c1 and has an operator of the same *structure* under another name *)
 CircNodes0 == [c1 |-> <<[n |-> "a", t |-> "t1"], [n |-> "b", t |-> "t1"], [n |-> "c", t |-> "t4"]>>,
                c2 |-> <<[n |-> "a", t |-> "t2"]>>,
-               c3 |-> <<[n |-> "a", t |-> "t3"], [n |-> "b", t |-> "t1"]>>]
+               c3 |-> <<[n |-> "a", t |-> "t3"], [n |-> "b", t |-> "t1"]>>,
+               cy |-> <<[n |-> "a", t |-> "t5"]>>]
 CircEdges0 == [c1 |-> <<[s |-> 1, t |-> 2, w |-> 4], [s |-> 3, t |-> 1, w |-> 6]>>, c2 |-> <<>>,
-               c3 |-> <<[s |-> 1, t |-> 2, w |-> 8]>>]
+               c3 |-> <<[s |-> 1, t |-> 2, w |-> 8]>>, cy |-> <<>>]
 VarNames == {"k", "x0"}
 NewVals == [k |-> 9, x0 |-> 40]          \* values written by overrides (distinct from every default)
 
@@ -59,18 +61,22 @@ VARIABLES tv,        \* NtId -> [k, x0]     variation dict of each shared NodeTe
           nodeCache, \* structure hash (eqv) -> Seq(unit) of the cached vectorised node
           stash,     \* CircId -> "none" | [sizes, vals]: the state a template remembers from its first compile
                      \*   (CircuitTemplate._state_var_values, keyed by backend variable, imposed on later compiles)
+          yhot,      \* template_cache holds the template of the YAML path
+          yhas,      \* the user holds a template obtained from from_yaml (circuit "cy" exists)
+          hasIr,     \* per circuit: the template still holds the IR of its last compile (clear=False)
+          yfresh,    \* M (ghost): the template the user holds should still be exactly what the file says
           handles,   \* functions returned earlier: Seq([c, units])
           last,      \* observable of the last call
           fired,     \* deviations that have influenced an observable so far
           tr         \* call history (hidden from the fingerprint)
-vars == <<tv, od, cn, ce, opCache, nodeCache, stash, handles, last, fired, tr>>
-View == <<tv, od, cn, ce, opCache, nodeCache, stash, handles, last, fired>>
+vars == <<tv, od, cn, ce, opCache, nodeCache, stash, yhot, yhas, hasIr, yfresh, handles, last, fired, tr>>
+View == <<tv, od, cn, ce, opCache, nodeCache, stash, yhot, yhas, hasIr, yfresh, handles, last, fired>>
 
-NoObs == [kind |-> "none", c |-> "none", units |-> <<>>, expect |-> <<>>, exc |-> "none"]
+NoObs == [kind |-> "none", c |-> "none", units |-> <<>>, expect |-> <<>>, exc |-> "none", dec |-> FALSE]
 NoStash == [sizes |-> <<>>, vals |-> <<>>]
 Hashes == {1, 2}
 EmptyNodeCache == [h \in Hashes |-> <<>>]
-EmptyOpCache == [nm \in {"A", "B"} |-> "none"]
+EmptyOpCache == [nm \in {"A", "B", "Y"} |-> "none"]
 
 Init == /\ tv = NtVar0
         /\ od = [o \in OpIds |-> [k |-> Ops[o].k, x0 |-> Ops[o].x0]]
@@ -79,6 +85,7 @@ Init == /\ tv = NtVar0
         /\ ce = CircEdges0
         /\ opCache = EmptyOpCache /\ nodeCache = EmptyNodeCache
         /\ stash = [c \in CircIds |-> NoStash]
+        /\ yhot = FALSE /\ yhas = FALSE /\ yfresh = FALSE /\ hasIr = [c \in CircIds |-> FALSE]
         /\ handles = <<>> /\ last = NoObs /\ fired = {} /\ tr = <<>>
 
 (* ------------------------------- layer M ---------------------------------- *)
@@ -176,8 +183,11 @@ CompileWith(c, vec, clr, nvs, kind) ==
       exc == IF useStash THEN ImposeExc(st, grp) ELSE "none"
       out == IF useStash /\ exc = "none" THEN Impose(st, grp, res.units) ELSE res.units
       dvs == res.dv \cup (IF stale # <<>> THEN {"NodeCacheSurvives"} ELSE {})
+                   \cup (IF c = "cy" /\ yfresh /\ (Meaning(c) # Meaning0(c) \/ stash[c] # NoStash) THEN {"TemplateCacheByPath"} ELSE {})
                    \cup (IF useStash /\ (exc # "none" \/ out # res.units) THEN {"StateStash"} ELSE {})
-  IN /\ last' = [kind |-> kind, c |-> c, units |-> IF exc = "none" THEN out \o stale ELSE <<>>, expect |-> exp, exc |-> exc]
+  IN /\ last' = [kind |-> IF kind = "compile_dec" THEN "compile" ELSE kind, c |-> c, units |-> IF exc = "none" THEN out \o stale ELSE <<>>,
+                 expect |-> IF c = "cy" /\ yfresh THEN [i \in 1..Len(cn[c]) |-> [Meaning0(c)[i] EXCEPT !.x0 = Pick(nvs[i].x0, @), !.k = Pick(nvs[i].k, @)]] ELSE exp,
+                 exc |-> exc, dec |-> kind = "compile_dec"]
      /\ fired' = fired \cup dvs
      /\ stash' = IF "StateStash" \in Dev /\ st = NoStash /\ exc = "none"
                  THEN [stash EXCEPT ![c] = [sizes |-> [q \in 1..Len(grp) |-> Len(grp[q])],
@@ -197,24 +207,26 @@ CompileWith(c, vec, clr, nvs, kind) ==
                           IF cn[c][j].own THEN [cn[c][j] EXCEPT !.pv = [k |-> res.units[j].k, x0 |-> res.units[j].x0]]
                           ELSE cn[c][j]]]
          ELSE UNCHANGED <<tv, cn>>)
-     /\ UNCHANGED <<od, ce>>
+     /\ hasIr' = IF exc = "none" THEN [hasIr EXCEPT ![c] = ~clr] ELSE hasIr
+     /\ UNCHANGED <<od, ce, yhot, yhas, yfresh>>
 
-Compile(c, vec, clr) ==
-  /\ "compile" \in Calls
-  /\ CompileWith(c, vec, clr, NoNv(c), "compile")
-  /\ tr' = Append(tr, [a |-> "compile", c |-> c, vec |-> vec, clr |-> clr, node |-> 0, var |-> "", val |-> 0])
+Usable(c) == c = "cy" => yhas
+Compile(c, vec, clr, dec) ==
+  /\ "compile" \in Calls /\ Usable(c) /\ (dec => "decorator" \in Calls)
+  /\ CompileWith(c, vec, clr, NoNv(c), IF dec THEN "compile_dec" ELSE "compile")
+  /\ tr' = Append(tr, [a |-> "compile", c |-> c, vec |-> vec, clr |-> clr, node |-> 0, var |-> "", val |-> 0, dec |-> dec])
 
 (* get_run_func(..., node_values={'<node>/<op>/<var>': val}): the value reaches the compiled model, not the template *)
 CompileNV(c, i, var, vec) ==
-  /\ "compile_nv" \in Calls
+  /\ "compile_nv" \in Calls /\ Usable(c)
   /\ CompileWith(c, vec, TRUE, [NoNv(c) EXCEPT ![i] = [NoNv(c)[i] EXCEPT ![var] = NewVals[var] + 1]], "compile")
-  /\ tr' = Append(tr, [a |-> "compile_nv", c |-> c, vec |-> vec, clr |-> TRUE, node |-> i, var |-> var, val |-> NewVals[var] + 1])
+  /\ tr' = Append(tr, [a |-> "compile_nv", c |-> c, vec |-> vec, clr |-> TRUE, node |-> i, var |-> var, val |-> NewVals[var] + 1, dec |-> FALSE])
 
 (* update_var(node_vars={'<node | all>/<op>/<var>': val}): deep-copies the node template of every addressed node *)
 Targets(c, sel) == IF sel = 0 THEN 1..Len(cn[c]) ELSE {sel}
 UniformOp(c) == \A i, j \in 1..Len(cn[c]) : Ops[OpOf(c, i)].name = Ops[OpOf(c, j)].name   \* 'all/<op>/<var>' then addresses every node
 UpdateVar(c, sel, var, arr) ==
-  /\ "update_var" \in Calls /\ (sel = 0 => UniformOp(c))
+  /\ "update_var" \in Calls /\ (sel = 0 => UniformOp(c)) /\ Usable(c)
   /\ LET ts == Targets(c, sel)
          val(i) == IF arr THEN NewVals[var] + i ELSE NewVals[var]       \* array value: one entry per addressed node
      IN IF "UpdateVarNoCopy" \in Dev
@@ -227,8 +239,9 @@ UpdateVar(c, sel, var, arr) ==
                           IF j \in ts THEN [cn[c][j] EXCEPT !.own = TRUE, !.pv = [VarOf(c, j) EXCEPT ![var] = val(j)]]
                           ELSE cn[c][j]]]
              /\ UNCHANGED tv
+  /\ yfresh' = (IF c = "cy" THEN FALSE ELSE yfresh) /\ UNCHANGED <<yhot, yhas, hasIr>>
   /\ last' = NoObs
-  /\ tr' = Append(tr, [a |-> "update_var", c |-> c, vec |-> arr, clr |-> FALSE, node |-> sel, var |-> var, val |-> NewVals[var]])
+  /\ tr' = Append(tr, [a |-> "update_var", c |-> c, vec |-> arr, clr |-> FALSE, node |-> sel, var |-> var, val |-> NewVals[var], dec |-> FALSE])
   /\ UNCHANGED <<od, ce, opCache, nodeCache, stash, handles, fired>>
 
 (* update_var(edge_vars=[(source, target, {'weight': w})]) *)
@@ -236,12 +249,12 @@ UpdateEdge(c, q) ==
   /\ "update_edge" \in Calls /\ q \in 1..Len(ce[c])
   /\ ce' = [ce EXCEPT ![c][q].w = 50 + q]
   /\ last' = NoObs
-  /\ tr' = Append(tr, [a |-> "update_edge", c |-> c, vec |-> FALSE, clr |-> FALSE, node |-> q, var |-> "weight", val |-> 50 + q])
-  /\ UNCHANGED <<tv, od, cn, opCache, nodeCache, stash, handles, fired>>
+  /\ tr' = Append(tr, [a |-> "update_edge", c |-> c, vec |-> FALSE, clr |-> FALSE, node |-> q, var |-> "weight", val |-> 50 + q, dec |-> FALSE])
+  /\ UNCHANGED <<tv, od, cn, opCache, nodeCache, stash, yhot, yhas, yfresh, hasIr, handles, fired>>
 
 (* read-only / copy-making calls: get_nodes, get_edges (collect_edges), to_yaml, deepcopy, update_template() copy *)
 ReadOnly(c, what) ==
-  /\ what \in Calls /\ what \in {"get_nodes", "collect_edges", "to_yaml", "deepcopy", "update_template_copy", "getitem"}
+  /\ Usable(c) /\ what \in Calls /\ what \in {"get_nodes", "collect_edges", "to_yaml", "deepcopy", "update_template_copy", "getitem"}
   /\ (IF what = "to_yaml" /\ "ToYamlWritesDefaults" \in Dev
       THEN od' = [o \in OpIds |->
                     LET js == {j \in 1..Len(cn[c]) : OpOf(c, j) = o} IN
@@ -253,24 +266,51 @@ ReadOnly(c, what) ==
       THEN ce' = [ce EXCEPT ![c] = Append(@, @[1])]
       ELSE UNCHANGED ce)
   /\ last' = NoObs
-  /\ tr' = Append(tr, [a |-> what, c |-> c, vec |-> FALSE, clr |-> FALSE, node |-> 0, var |-> "", val |-> 0])
-  /\ UNCHANGED <<tv, cn, opCache, nodeCache, stash, handles, fired>>
+  /\ tr' = Append(tr, [a |-> what, c |-> c, vec |-> FALSE, clr |-> FALSE, node |-> 0, var |-> "", val |-> 0, dec |-> FALSE])
+  /\ UNCHANGED <<tv, cn, opCache, nodeCache, stash, yhot, yhas, yfresh, hasIr, handles, fired>>
 
 ClearAll ==            \* pyrates.clear_frontend_caches()
   /\ "clear_frontend_caches" \in Calls
   /\ opCache' = EmptyOpCache /\ nodeCache' = EmptyNodeCache
   /\ last' = NoObs
-  /\ tr' = Append(tr, [a |-> "clear_frontend_caches", c |-> "none", vec |-> FALSE, clr |-> FALSE, node |-> 0, var |-> "", val |-> 0])
-  /\ UNCHANGED <<tv, od, cn, ce, stash, handles, fired>>
+  /\ tr' = Append(tr, [a |-> "clear_frontend_caches", c |-> "none", vec |-> FALSE, clr |-> FALSE, node |-> 0, var |-> "", val |-> 0, dec |-> FALSE])
+  /\ UNCHANGED <<tv, od, cn, ce, stash, yhas, yfresh, hasIr, handles, fired>>
+  /\ yhot' = FALSE
+
+FreshCy == [i \in 1..Len(CircNodes0["cy"]) |-> [n |-> CircNodes0["cy"][i].n, t |-> CircNodes0["cy"][i].t, own |-> FALSE, pv |-> [k |-> Unset, x0 |-> Unset]]]
+LoadYaml ==            \* cy = CircuitTemplate.from_yaml(path): cached by path; the cached *object* is handed out again
+  /\ "from_yaml" \in Calls
+  /\ LET hit == yhot /\ "TemplateCacheByPath" \in Dev IN
+       /\ cn' = IF hit THEN cn ELSE [cn EXCEPT !["cy"] = FreshCy]
+       /\ stash' = IF hit THEN stash ELSE [stash EXCEPT !["cy"] = NoStash]
+       /\ hasIr' = IF hit THEN hasIr ELSE [hasIr EXCEPT !["cy"] = FALSE]
+  /\ yhot' = TRUE /\ yhas' = TRUE /\ yfresh' = TRUE
+  /\ last' = NoObs
+  /\ tr' = Append(tr, [a |-> "from_yaml", c |-> "cy", vec |-> FALSE, clr |-> FALSE, node |-> 0, var |-> "", val |-> 0, dec |-> FALSE])
+  /\ UNCHANGED <<tv, od, ce, opCache, nodeCache, handles, fired>>
+
+ClearModel(c) ==       \* pyrates.clear(model): model.clear() if it holds an IR (AttributeError swallowed otherwise), then
+                       \* clear_frontend_caches()
+  /\ "clear_model" \in Calls /\ Usable(c)
+  /\ LET skip == "ClearSkipsWhenNoIR" \in Dev /\ ~hasIr[c] IN
+       /\ opCache' = (IF skip THEN opCache ELSE EmptyOpCache) /\ nodeCache' = (IF skip THEN nodeCache ELSE EmptyNodeCache)
+       /\ yhot' = (IF skip THEN yhot ELSE FALSE)
+  /\ stash' = IF hasIr[c] THEN [stash EXCEPT ![c] = NoStash] ELSE stash       \* CircuitTemplate.clear forgets the state
+  /\ hasIr' = [hasIr EXCEPT ![c] = FALSE]
+  /\ last' = NoObs
+  /\ tr' = Append(tr, [a |-> "clear_model", c |-> c, vec |-> FALSE, clr |-> FALSE, node |-> 0, var |-> "", val |-> 0, dec |-> FALSE])
+  /\ UNCHANGED <<tv, od, cn, ce, yhas, yfresh, handles, fired>>
 
 CallEarlier(hd) ==     \* evaluate a function returned by an earlier compile: it keeps computing its own model
   /\ "call_earlier" \in Calls /\ hd \in 1..Len(handles)
-  /\ last' = [kind |-> "call", c |-> handles[hd].c, units |-> handles[hd].units, expect |-> handles[hd].units, exc |-> "none"]
-  /\ tr' = Append(tr, [a |-> "call_earlier", c |-> handles[hd].c, vec |-> FALSE, clr |-> FALSE, node |-> hd, var |-> "", val |-> 0])
-  /\ UNCHANGED <<tv, od, cn, ce, opCache, nodeCache, stash, handles, fired>>
+  /\ last' = [kind |-> "call", c |-> handles[hd].c, units |-> handles[hd].units, expect |-> handles[hd].units, exc |-> "none", dec |-> FALSE]
+  /\ tr' = Append(tr, [a |-> "call_earlier", c |-> handles[hd].c, vec |-> FALSE, clr |-> FALSE, node |-> hd, var |-> "", val |-> 0, dec |-> FALSE])
+  /\ UNCHANGED <<tv, od, cn, ce, opCache, nodeCache, stash, yhot, yhas, yfresh, hasIr, handles, fired>>
 
 Next ==
-  \/ \E c \in CircIds, vec \in BOOLEAN, clr \in BOOLEAN : Compile(c, vec, clr)
+  \/ \E c \in CircIds, vec \in BOOLEAN, clr \in BOOLEAN, dec \in BOOLEAN : Compile(c, vec, clr, dec)
+  \/ LoadYaml
+  \/ \E c \in CircIds : ClearModel(c)
   \/ \E c \in CircIds, vec \in BOOLEAN : \E i \in 1..Len(cn[c]) : \E var \in VarNames : CompileNV(c, i, var, vec)
   \/ \E c \in CircIds : \E sel \in 0..Len(cn[c]) : \E var \in VarNames, arr \in BOOLEAN : (arr => sel = 0) /\ UpdateVar(c, sel, var, arr)
   \/ \E c \in CircIds : \E q \in 1..Len(ce[c]) : UpdateEdge(c, q)
@@ -289,8 +329,24 @@ OnlyKnown == (IsCompile /\ (last.units # last.expect \/ last.exc # "none")) => f
 (* the class of histories in which the surviving node cache was used is kept out of the export (pinned reproducers) *)
 NoStaleNodeCache == "NodeCacheSurvives" \notin fired
 (* C14: read-only and copy-making calls, and compiles with in_place=False, leave every template's meaning unchanged *)
+(* C13: clear(model) resets every process-wide cache, whether or not the model still holds an IR *)
+ClearModelClears ==
+  [][ (tr' # tr /\ tr'[Len(tr')].a = "clear_model") => (opCache' = EmptyOpCache /\ nodeCache' = EmptyNodeCache /\ ~yhot') ]_vars
+(* restriction of the exploration to histories about the YAML-loaded circuit (deeper bound) *)
+(* a history-sensitive view: states reached by different sequences of call kinds are kept apart, so that the export
+   covers every sequence of kinds (path coverage of the implementation) and not only every abstract state *)
+Sig == [i \in 1..Len(tr) |-> <<tr[i].a, tr[i].c>>]
+ViewSig == <<View, Sig>>
+PlainCalls == \A i \in 1..Len(tr) : /\ (tr[i].a \in {"compile", "compile_nv"} => ~tr[i].vec /\ ~tr[i].dec)
+                                     /\ (tr[i].a = "update_var" => tr[i].node # 0)
+OnlyCy == \A i \in 1..Len(tr) : tr[i].c \in {"cy", "none"}
 ReadOnlyKinds == {"compile", "compile_nv", "get_nodes", "collect_edges", "to_yaml", "deepcopy", "update_template_copy",
-                  "getitem", "clear_frontend_caches", "call_earlier"}
+                  "getitem", "clear_frontend_caches", "call_earlier", "clear_model"}
+(* C13: from_yaml yields the model the file describes, whatever was done to templates loaded from it earlier *)
+LoadYieldsFile ==
+  [][ (tr' # tr /\ tr'[Len(tr')].a = "from_yaml") =>
+        /\ Meaning("cy")' = Meaning0("cy") /\ stash'["cy"] = NoStash
+        /\ \A c \in CircIds \ {"cy"} : Meaning(c)' = Meaning(c) ]_vars
 ReadOnlyPreservesMeaning ==
   [][ (tr' # tr /\ tr'[Len(tr')].a \in ReadOnlyKinds) => \A c \in CircIds : Meaning(c)' = Meaning(c) ]_vars
 (* C07: an override changes the addressed nodes' variable and nothing else - in any circuit *)
